@@ -903,7 +903,11 @@ func (m *vMachine) c03Step(i int, op vOp, p *vProduct, b, a vSnap, ok bool, err 
 	if !a.hasVault {
 		return
 	}
-	ratio := m.ratio(p, a.vault.AmountIn, a.vault.AmountOut)
+	// debt value = principal plus the interest accrued and booked on the vault (the
+	// quantifier speaks of "accrued interest"); the closing fee is not counted, so a
+	// create, which the tree checks on principal alone, is never accused.
+	debt := a.vault.AmountOut.Add(a.vault.InterestAccumulated)
+	ratio := m.ratio(p, a.vault.AmountIn, debt)
 	if ratio == nil {
 		return
 	}
@@ -912,14 +916,14 @@ func (m *vMachine) c03Step(i int, op vOp, p *vProduct, b, a vSnap, ok bool, err 
 	// resolution of the two values it is computed from
 	pin, _, pout, _ := m.prices(p)
 	vin := new(big.Rat).SetFrac(new(big.Int).Mul(a.vault.AmountIn.BigInt(), new(big.Int).SetUint64(pin)), world.Pow10(m.inAsset(p).DecExp).BigInt())
-	vout := new(big.Rat).SetFrac(new(big.Int).Mul(a.vault.AmountOut.BigInt(), new(big.Int).SetUint64(pout)), world.Pow10(m.outAsset(p).DecExp).BigInt())
+	vout := new(big.Rat).SetFrac(new(big.Int).Mul(debt.BigInt(), new(big.Int).SetUint64(pout)), world.Pow10(m.outAsset(p).DecExp).BigInt())
 	unit := big.NewRat(1, 1000000000000000000)
 	slack := new(big.Rat).Set(unit)
 	rel := new(big.Rat).Add(new(big.Rat).Quo(unit, vin), new(big.Rat).Quo(unit, vout))
 	slack.Add(slack, new(big.Rat).Mul(minCr, rel))
 	lim := new(big.Rat).Sub(minCr, slack)
 	if ratio.Cmp(lim) < 0 {
-		m.fail("C03.min-collateral-ratio", op.K, "step %d: %s succeeded leaving collateral value / principal value = %s below the minimum %s", i, op.K, ratio.FloatString(24), p.MinCr)
+		m.fail("C03.min-collateral-ratio", op.K, "step %d: %s succeeded leaving collateral value / debt value = %s below the minimum %s (collateral %s, principal %s, accrued interest %s)", i, op.K, ratio.FloatString(24), p.MinCr, a.vault.AmountIn, a.vault.AmountOut, a.vault.InterestAccumulated)
 	}
 	// boundary class: ratio within 1e-9 relative of MinCr
 	diff := new(big.Rat).Sub(ratio, minCr)
